@@ -68,7 +68,7 @@ quick|thorough)
     build_tsim
     EV="$ROOT/evidence/C16.json"; rm -f "$EV"
     T1=$(mktemp "$H/target/ev.XXXXXX")
-    "$TSIM" check --tier "$TIER" --evidence "$T1" --replays "$ROOT/replays" ${C16_TSIM_ITERATIONS:+--iterations "$C16_TSIM_ITERATIONS"}
+    (ulimit -v 16777216 2>/dev/null; "$TSIM" check --tier "$TIER" --evidence "$T1" --replays "$ROOT/replays" ${C16_TSIM_ITERATIONS:+--iterations "$C16_TSIM_ITERATIONS"})
     rc=$?
     [ $rc -ge 2 ] && { rm -f "$T1"; exit 2; }
     miri_json='{"ran": false, "reason": "Miri layer runs in the thorough tier only (1.5-5 min per seed)"}'
